@@ -13,17 +13,21 @@ Definition ilst_wellformed (ilst_data : list Z) (it : mp4_atom) : Prop :=
 Lemma wf_forest f atoms : mp4_wf f = true -> mp4_atoms f = Ok atoms ->
   mp4_forest_ok f true atoms 0 (zlen f) = true /\ mp4_tables_ok f atoms = true.
 Proof.
-  intros Hwf Ha. destruct (wf_parts f Hwf) as (a & Ha' & H1 & H2 & _). rewrite Ha in Ha'. inversion Ha'; subst. auto.
+  intros Hwf Ha. destruct (wf_parts f Hwf) as (a & Ha' & H1 & H2 & _ & _). rewrite Ha in Ha'. inversion Ha'; subst. auto.
+Qed.
+Lemma wf_height f atoms : mp4_wf f = true -> mp4_atoms f = Ok atoms -> mp4_forest_height atoms <= MP4_MAXDEPTH.
+Proof.
+  intros Hwf Ha. destruct (wf_parts f Hwf) as (a & Ha' & _ & _ & _ & H). rewrite Ha in Ha'. inversion Ha'; subst. exact H.
 Qed.
 
 Theorem c10_parents_consistent f ilst_data cb f' atoms path it :
   mp4_wf f = true -> mp4_atoms f = Ok atoms -> mp4_path atoms ILST_PATH = Some path -> mp4_tags_clean atoms = true ->
-  ilst_wellformed ilst_data it -> mp4_save f ilst_data cb = Ok f' ->
-  exists atoms', mp4_atoms f' = Ok atoms' /\ mp4_forest_ok f' true atoms' 0 (zlen f') = true.
+  ilst_wellformed ilst_data it -> mp4_height it <= 62 -> mp4_save f ilst_data cb = Ok f' ->
+  exists atoms', mp4_atoms f' = Ok atoms' /\ mp4_forest_ok f' true atoms' 0 (zlen f') = true /\
+                 mp4_forest_height atoms' <= MP4_MAXDEPTH.
 Proof.
-  intros Hwf Ha Hp Hc Hit Hs. destruct (wf_forest f atoms Hwf Ha) as (H1 & H2).
-  destruct (save_existing_wellformed f atoms path ilst_data cb f' Ha H1 H2 Hp Hc Hs it Hit) as (atoms' & E1 & E2 & _).
-  exists atoms'. auto.
+  intros Hwf Ha Hp Hc Hit Hih Hs. destruct (wf_forest f atoms Hwf Ha) as (H1 & H2).
+  exact (save_existing_wellformed f atoms path ilst_data cb f' Ha H1 H2 Hp Hc Hs (wf_height f atoms Hwf Ha) it Hit Hih).
 Qed.
 
 Theorem c10_offsets_follow_data f ilst_data cb f' atoms path :
@@ -84,17 +88,17 @@ Qed.
 
 Lemma wf_entries f atoms : mp4_wf f = true -> mp4_atoms f = Ok atoms -> mp4_entries_in_file f atoms = true.
 Proof.
-  intros Hwf Ha. destruct (wf_parts f Hwf) as (a & Ha' & _ & _ & H3). rewrite Ha in Ha'. inversion Ha'; subst. exact H3.
+  intros Hwf Ha. destruct (wf_parts f Hwf) as (a & Ha' & _ & _ & H3 & _). rewrite Ha in Ha'. inversion Ha'; subst. exact H3.
 Qed.
 
 (* mp4_wf is preserved: with every table of the file among those the save visits, and no item of the new ilst named like a table *)
 Theorem c10_wf_preserved f ilst_data cb f' atoms path it :
   mp4_wf f = true -> mp4_atoms f = Ok atoms -> mp4_path atoms ILST_PATH = Some path -> mp4_tags_clean atoms = true ->
-  covered atoms -> ilst_wellformed ilst_data it -> ilst_clean it = true ->
+  covered atoms -> ilst_wellformed ilst_data it -> ilst_clean it = true -> mp4_height it <= 62 ->
   mp4_save f ilst_data cb = Ok f' -> mp4_wf f' = true.
 Proof.
-  intros Hwf Ha Hp Hc Hcov Hit Hic Hs. destruct (wf_forest f atoms Hwf Ha) as (H1 & H2).
-  exact (save_existing_wf f atoms path ilst_data cb f' Ha H1 H2 Hp Hc Hs it Hit Hic Hcov (wf_entries f atoms Hwf Ha)).
+  intros Hwf Ha Hp Hc Hcov Hit Hic Hih Hs. destruct (wf_forest f atoms Hwf Ha) as (H1 & H2).
+  exact (save_existing_wf f atoms path ilst_data cb f' Ha H1 H2 Hp Hc Hs (wf_height f atoms Hwf Ha) it Hit Hic Hih Hcov (wf_entries f atoms Hwf Ha)).
 Qed.
 
 (* ------------------------------------------------------------------ `covered` is decidable on a well-formed tree *)
